@@ -405,7 +405,72 @@ def _aio_next(pkg):
     return run
 
 
-def _credit_wakeup(pkg):
+def _event_generator(pkg):
+    """observable_to_async_event_generator: the buffering bridge for plain observables.  Under the assumed contract of
+    materialize() (signals become notifications 1:1, the terminal one followed by on_completed) the generator yields
+    exactly the notifications, once each, in order, whatever the timing between signals and consumption, and ends after
+    the terminal one."""
+    P = PKGS[pkg]
+    BP = P['dir'] + 'back_pressure_publisher.py::'
+
+    def run(E):
+        E.import_module('asyncio')
+        rx = E.import_module('reactivex' if pkg == 'reactivex' else 'rx')
+        source = SObj(M._builtin_class('rx.Observable'), {})
+        captured = []
+        E.rx_subscribe_hook = lambda E_, ob, o: captured.append((ob, o)) or SObj(M._builtin_class('rx.Disposable'), {'action': None, 'disposed': False})
+        n1 = SObj(M._builtin_class('rx.OnNext'), {'value': SOpaque('payload', 'v1'), 'kind': 'N'})
+        n2 = SObj(M._builtin_class('rx.OnNext'), {'value': SOpaque('payload', 'v2'), 'kind': 'N'})
+        term = [SObj(M._builtin_class('rx.OnCompleted'), {'kind': 'C'}),
+                SObj(M._builtin_class('rx.OnError'), {'exception': E.make_exc('ValueError', 'x'), 'kind': 'E'})][E.path.choice(2, 'terminal')]
+        script = [n1, n2, term]
+        burst = E.path.choice(3, 'signals-arrive')       # 0 one per wait, 1 all before consumption starts, 2 two then one
+        emitted = []
+
+        def emit(k):
+            from pyvc import rxmodel
+            ob, o = captured[0]
+            for _ in range(k):
+                if len(emitted) == len(script):
+                    return
+                ev = script[len(emitted)]
+                emitted.append(ev)
+                rxmodel._signal(E, o, 'on_next', ev)
+                if ev is term:
+                    rxmodel._signal(E, o, 'on_completed')
+
+        def on_suspend(E_, what):
+            if what[0] == 'queue.get':
+                if len(emitted) == len(script):
+                    E_.throw('CancelledError')        # nothing will ever arrive: the consumer is cancelled
+                emit({0: 1, 1: 3, 2: 2}[burst])
+                return what[1].attrs['_queue'].pop(0)
+            return None
+        E.suspend_hook = on_suspend
+        g = E.call(E.lookup(BP + 'observable_to_async_event_generator'), [source])
+        out = []
+        first = [True]
+
+        def on_yield(v):
+            out.append(v)
+            return None
+        if burst == 1:
+            pass
+        try:
+            E.run_generator(g, on_yield)
+        except PyExc as e:
+            E.cover('cancelled-while-waiting')
+            E.prove('event_generator:ends_by_itself_after_the_terminal_notification', False)
+            return
+        E.cover('generator-ended')
+        E.prove('event_generator:subscribed_once_through_materialize',
+                len(captured) == 1 and captured[0][0].attrs.get('source') is source
+                and [getattr(x, 'ident', None) for x in captured[0][0].attrs.get('operators', [])] == ['materialize'])
+        E.prove('event_generator:every_notification_once_in_order_then_end', len(out) == 3 and all(a is b for a, b in zip(out, script)))
+    return run
+
+
+def _credit_wakeup(pkg, fn='from_async_event_iterator'):
     """BOUNDED, and independent of how the publisher keeps its credit (queue, counter + event, ...): the observable-backed
     publisher is built and driven through its public operations only; the sender coroutine is run with every loop unrolled.
     Safety form of "delivers every element once enough credit has been granted": the coroutine is never parked waiting
@@ -432,7 +497,7 @@ def _credit_wakeup(pkg):
         log = OpaqueLog(E, returns={'__anext__': anext})
         tasks = []
         E.create_task_hook = lambda E_, t, coro: tasks.append((t, coro))
-        ob = E.call(E.lookup(BP + 'from_async_event_iterator'), [it, backpressure])
+        ob = E.call(E.lookup(BP + fn), [it, backpressure])
         E.call(E.getattr(ob, 'subscribe'), [observer])
         grant(1 + E.path.choice(2, 'first-grant'))
 
@@ -442,6 +507,8 @@ def _credit_wakeup(pkg):
                 # the source is slow: while the sender waits for the next element the requester may top up its credit
                 if st['grants'] < 2 and E_.path.choice(2, 'credit-granted-mid-batch') == 1:
                     grant(1 + E_.path.choice(2, 'second-grant'))
+                if fn == 'observable_from_async_generator':
+                    return SOpaque('payload', 'v%d' % st['taken'])      # this variant iterates plain values
                 return SObj(M._builtin_class('rx.OnNext'), {'value': SOpaque('payload', 'v%d' % st['taken']), 'kind': 'N'})
             blocked = (kind == 'queue.get') or (kind == 'event.wait' and obj.attrs.get('flag') is not True)
             if blocked:
@@ -469,6 +536,13 @@ for _pkg in PKGS:
             functions=[_d + 'back_pressure_publisher.py::from_async_event_iterator'],
             assumptions=RXA + ['BOUNDED stand-in: one or two grants of 1..2 units, the second possibly arriving while the sender awaits the '
                                'next element; loops unrolled; asyncio.Queue.get / Event.wait suspend iff empty / not set'])(_credit_wakeup(_pkg))
+    harness('c20.%s.credit_wakeup.bounded[async-generator-observable]' % _pkg, ['C20', 'C06'], kind='bounded',
+            functions=[_d + 'back_pressure_publisher.py::observable_from_async_generator'],
+            assumptions=RXA + ['BOUNDED stand-in: as c20.*.credit_wakeup.bounded, for the back-pressure-aware helper observable'])(
+        _credit_wakeup(_pkg, 'observable_from_async_generator'))
+    harness('c20.%s.event_generator' % _pkg, ['C20', 'C06'], functions=[_d + 'back_pressure_publisher.py::observable_to_async_event_generator'],
+            assumptions=RXA + ['materialize(): each signal of the source becomes one notification, in order; the terminal notification is '
+                               'followed by on_completed (assumed contract of the Rx operator)'])(_event_generator(_pkg))
     harness('c20.%s.delegation' % _pkg, ['C20', 'C12'], functions=[_d + PKGS[_pkg]['adapter'] + '.' + m for m in
             ('on_setup', 'on_metadata_push', 'request_fire_and_forget', 'on_error', 'on_keepalive_timeout', 'on_connection_error', 'on_close', '__init__')],
             replay='c20_delegation', assumptions=RXA)(_delegation(_pkg))
